@@ -370,8 +370,17 @@ std::atomic<int> f_inWait{0}, f_inTimed{0}, f_inUntimed{0};
 std::atomic<uint32_t> f_preProb{0}, f_spurProb{0};
 std::atomic<int> f_preMaxUs{0};
 using SyscallFn = long (*)(long, ...);
+// Resolved eagerly in init() and cached in a plain atomic: a function-local static would be
+// guarded by __cxa_guard_acquire, and libstdc++ waits on a contended guard through syscall(SYS_futex),
+// i.e. through this interposer again -> unbounded recursion when several threads make the
+// process's first futex call at the same moment.
+std::atomic<SyscallFn> g_realSyscall{nullptr};
 SyscallFn realSyscall() {
-  static SyscallFn fn = reinterpret_cast<SyscallFn>(dlsym(RTLD_NEXT, "syscall"));
+  SyscallFn fn = g_realSyscall.load(std::memory_order_relaxed);
+  if (!fn) {
+    fn = reinterpret_cast<SyscallFn>(dlsym(RTLD_NEXT, "syscall"));
+    g_realSyscall.store(fn, std::memory_order_relaxed);
+  }
   return fn;
 }
 } // namespace
@@ -655,6 +664,7 @@ void init(int argc, char** argv) {
     }
   }
   if (g_args.nshards < 1) g_args.nshards = 1;
+  (void)realSyscall(); // resolve before any thread exists
   setvbuf(stdout, nullptr, _IOLBF, 0);
   if (!g_args.out.empty()) {
     g_out = fopen(g_args.out.c_str(), "a");
